@@ -80,5 +80,5 @@ def _dup_raises(v, old, exc):
 REG.add(Contract(F_CP, 'ConfigParser._check_for_duplicate_pairs', params=[('self', T.Obj('ConfigParser'))],
     ensures=_dup_post, post_names=['accepted-only-if-no-two-keys-name-the-same-unordered-pair'],
     invariants={0: _dup_inv}, ghost={'seen': T.Set(PairKey)},
-    raises_when=_dup_raises, on_raise=lambda v, old: [], instantiate_int_foralls=True,
+    raises_when=_dup_raises, on_raise=lambda v, old: [], instantiate_int_foralls=True, raises_classes=['ConfigParserDuplicateEntryException', 'ConfigParserException'],
     carries=['post', 'raises', 'preserve/0'], props=['C20']))
